@@ -619,17 +619,20 @@ def run_altlink(idx, rng, sh):
     else:
         fs, fr, ver = 0x1d, rng.choice([0x1c, 0x24]), 5
     rw = {0x1f20: 4, 0x1c: 4, 0x24: 8}[fr]
-    ab = uleb(1) + uleb(0x11) + b'\x01' + b'\0\0' + uleb(2) + uleb(0x34) + b'\0' + uleb(0x03) + uleb(fs) + uleb(0x49) + uleb(fr) + b'\0\0' + b'\0'
+    # beside the alt forms a plain DW_FORM_strp holding the SAME number: one offset, two string tables
+    ab = uleb(1) + uleb(0x11) + b'\x01' + b'\0\0' + uleb(2) + uleb(0x34) + b'\0' + uleb(0x03) + uleb(fs) + uleb(0x49) + uleb(fr) + \
+        uleb(0x25) + uleb(0x0e) + b'\0\0' + b'\0'
+    mstr = b'\0' + b''.join(('mainst%d' % i).encode() + b'\0' for i in range(5))       # the layout of the supplementary table, other strings
     body = uleb(1)
     picks = []
     for i in range(3):
         a, b = rng.randrange(5), rng.randrange(4)
         picks.append((a, b))
-        body += uleb(2) + I(soffs[a], 4) + I(sdies[b], rw)
+        body += uleb(2) + I(soffs[a], 4) + I(sdies[b], rw) + I(soffs[a], 4)
     body += b'\0'
     hdr = (I(ver, 2) + bytes([1, cls // 8]) + I(0, 4)) if ver == 5 else (I(ver, 2) + I(0, 4) + bytes([cls // 8]))
     info = I(len(hdr) + len(body), 4) + hdr + body
-    P = dict(cls=cls, le=le, machine=62 if le else 21, debug={'.debug_info': info, '.debug_abbrev': ab, '.debug_str': b'\0main\0'}, has_alt=True)
+    P = dict(cls=cls, le=le, machine=62 if le else 21, debug={'.debug_info': info, '.debug_abbrev': ab, '.debug_str': mstr}, has_alt=True)
     link = (lambda: altlink_section(b'sup.dwz')) if fmtsel == 'gnu' else (lambda: debugsup_section(le, b'sup.dwz', 0))
     seen = []
     for kind in ('plain', 'gabi', 'zdebug'):
@@ -648,8 +651,8 @@ def run_altlink(idx, rng, sh):
         for d in cu.iter_DIEs():
             if d.tag == 'DW_TAG_variable':
                 t = d.get_DIE_from_attribute('DW_AT_type')
-                got.append((d.attributes['DW_AT_name'].value, t.offset, t.attributes['DW_AT_byte_size'].value))
-        want = [(('supstr%d' % a).encode(), sdies[b], b + 1) for a, b in picks]
+                got.append((d.attributes['DW_AT_name'].value, t.offset, t.attributes['DW_AT_byte_size'].value, d.attributes['DW_AT_producer'].value))
+        want = [(('supstr%d' % a).encode(), sdies[b], b + 1, ('mainst%d' % a).encode()) for a, b in picks]
         if got != want:
             raise Bad('alt-form values do not resolve into the supplementary file (%s forms, %s container)' % (fmtsel, kind), got=got, want=want)
         seen.append(got)
@@ -683,7 +686,7 @@ def run_altlink(idx, rng, sh):
                   calls=calls, got=got[:2], want=want[:2])
     sh.sig(('link-chain', fmtsel, cls, le))
     sh.held(n=10)
-    sh.sample({'forms': fmtsel, 'class': cls, 'little_endian': le, 'resolved': [(a.decode(), b, c) for a, b, c in seen[0]]}, kind='altlink')
+    sh.sample({'forms': fmtsel, 'class': cls, 'little_endian': le, 'resolved': [(a.decode(), b, c, e.decode()) for a, b, c, e in seen[0]]}, kind='altlink')
 
 
 def run_reject(idx, rng, sh):
